@@ -4,28 +4,14 @@ From ZV.C06 Require Import Model Spec ProofsBasic ProofsList ProofsScan.
 From Coq Require Import Permutation.
 Open Scope N_scope.
 
-Section Inv.
-  Variable h : N -> N.
-
-  (* every live slot stores the (normalised) hash of its key and is what a search for its key finds *)
-  Definition I2 (st : std) : Prop :=
-    forall p, (p < length (entries st))%nat -> liveb (nth p (entries st) dummy) = true ->
-      s_hash (nth p (entries st) dummy) = hk h (s_key (nth p (entries st) dummy)) /\
-      scan (entries st) (s_hash (nth p (entries st) dummy)) (s_key (nth p (entries st) dummy))
-           (path st (s_hash (nth p (entries st) dummy))) = Some p.
-
   Definition sized (st : std) : Prop :=
     exists j, N.of_nat (length (entries st)) = 2 ^ j /\ mask st = 2 ^ j - 1 /\ 16 <= 2 ^ j.
 
   Definition wf (st : std) : Prop :=
     (exists a, alloc st = 2 ^ a) /\ (entries st = [] \/ sized st).
 
-  Definition R (st : std) (m : smap) : Prop :=
-    wf st /\ I2 st /\ Permutation (map kv (lives (entries st))) m /\ NoDup (map fst m).
-
   Definition with_entries (st : std) (es : list slot) : std := mkstd es (mask st) (alloc st).
 
-  (* ---- the probe path stays inside the table ---- *)
   Lemma land_mask_mod x j : N.land x (2 ^ j - 1) = x mod 2 ^ j.
   Proof.
     replace (2 ^ j - 1) with (N.ones j) by (rewrite N.ones_equiv, N.pred_sub; reflexivity).
@@ -61,6 +47,33 @@ Section Inv.
   Lemma lives_in es e : In e (lives es) <-> In e es /\ liveb e = true.
   Proof. unfold lives. apply filter_In. Qed.
 
+  Lemma keys_kv (l : list slot) : map fst (map kv l) = map s_key l.
+  Proof. rewrite map_map. apply map_ext. intros e; reflexivity. Qed.
+
+Section Inv.
+  Variable h : N -> N.
+
+  (* every live slot stores the (normalised) hash of its key and is what a search for its key finds *)
+  Definition I2 (st : std) : Prop :=
+    forall p, (p < length (entries st))%nat -> liveb (nth p (entries st) dummy) = true ->
+      s_hash (nth p (entries st) dummy) = hk h (s_key (nth p (entries st) dummy)) /\
+      scan (entries st) (s_hash (nth p (entries st) dummy)) (s_key (nth p (entries st) dummy))
+           (path st (s_hash (nth p (entries st) dummy))) = Some p.
+
+
+
+  Definition R (st : std) (m : smap) : Prop :=
+    wf st /\ I2 st /\ Permutation (map kv (lives (entries st))) m /\ NoDup (map fst m).
+
+
+  (* ---- the probe path stays inside the table ---- *)
+
+
+
+
+
+
+
   (* ---- what a search says about the set of live slots ---- *)
   Lemma find_sound st K p :
     sized st -> scan (entries st) (hk h K) K (path st (hk h K)) = Some p ->
@@ -95,8 +108,6 @@ Section Inv.
     destruct (find_complete _ _ _ I He Hk) as [p [_ [_ S]]]. congruence.
   Qed.
 
-  Lemma keys_kv (l : list slot) : map fst (map kv l) = map s_key l.
-  Proof. rewrite map_map. apply map_ext. intros e; reflexivity. Qed.
 
   Lemma R_keys st m : R st m -> forall k, In k (map fst m) <-> In k (map s_key (lives (entries st))).
   Proof.
